@@ -12,6 +12,17 @@ def PRole.name : PRole → String | .axiom => "axiom" | .conjecture => "conjectu
 def AnnF.toSexp (a : AnnF) : Sexp := .list [.str a.name, .atom a.role.name, a.formula.toSexp]
 def Problem.toSexp (p : Problem) : Sexp := .list [.atom "problem", .str p.name, .list (p.formulas.map AnnF.toSexp)]
 
+def PRole.ofName : String → Option PRole
+  | "axiom" => some .axiom | "conjecture" => some .conjecture | _ => none
+
+def AnnF.ofSexp : Sexp → Option AnnF
+  | .list [.str n, .atom r, f] => do some ⟨n, ← PRole.ofName r, ← Formula.ofSexp f⟩
+  | _ => none
+
+def Problem.ofSexp : Sexp → Option Problem
+  | .list [.atom "problem", .str n, fs] => do some ⟨n, ← listOf AnnF.ofSexp fs⟩
+  | _ => none
+
 def Decomposition.ofName : String → Option Decomposition
   | "independent" => some .independent | "sequential" => some .sequential | _ => none
 def Direction.ofName : String → Option Direction
